@@ -12,6 +12,11 @@
 From Moc Require Import Base Match Router.
 Open Scope Z_scope.
 
+(** lazy connectives: the oracles are evaluated by vm_compute (call by value),
+    where [andb]/[orb] would evaluate both sides *)
+Notation "a &&& b" := (if a then b else false) (at level 40, left associativity).
+Notation "a ||| b" := (if a then true else b) (at level 50, left associativity).
+
 (** what a client sees on the wire *)
 Inductive xmsg :=
 | XEose (sub : str)
@@ -79,25 +84,27 @@ Definition has_disc (h : history) (x : nat) : bool :=
     matching filters began before that publication's OK, and no CLOSE /
     replacement / end of session issued after that REQ is known to have
     taken effect before the publication began. *)
-Definition justified (h : history) (x : nat) (sub : str) (e : event) (r : Z) : bool :=
+Definition justified (ps : list (hop * event)) (h : history) (xops : list hop) (sub : str) (e : event) (r : Z) : bool :=
   existsb (fun pe : hop * event =>
     let (p, e') := pe in
-    event_eqb e' e && (h_b p <? r) &&
+    str_eqb (ev_id e') (ev_id e) &&& event_eqb e' e &&& (h_b p <? r) &&&
     existsb (fun q : hop =>
       match h_o q with
       | OReq s fs =>
-          str_eqb s sub && matches_specb e fs && lt_opt (h_b q) (h_d p) &&
+          str_eqb s sub &&& lt_opt (h_b q) (h_d p) &&& matches_specb e fs &&&
           negb (existsb (fun k : hop =>
-                  (h_b q <? h_b k) && op_ends (h_o k) sub && ended_before (effect_known h k) (h_b p))
-                (ops_of h x))
+                  (h_b q <? h_b k) &&& op_ends (h_o k) sub &&& ended_before (effect_known h k) (h_b p))
+                xops)
       | _ => false
-      end) (ops_of h x)) (pubs h).
+      end) xops) ps.
 
 Definition must_not_ok (h : history) : bool :=
+  let ps := pubs h in
   forallb (fun x =>
+    let xops := ops_of h x in
     forallb (fun ms : xmsg * Z =>
       match fst ms with
-      | XEvent sub e => justified h x sub e (snd ms)
+      | XEvent sub e => justified ps h xops sub e (snd ms)
       | _ => true
       end) (outs_of h x)) (seq 0 (length (hi_outs h))).
 
@@ -107,7 +114,7 @@ Definition must_not_ok (h : history) : bool :=
 Definition delivered (h : history) (x : nat) (sub : str) (e : event) : bool :=
   existsb (fun ms : xmsg * Z =>
     match fst ms with
-    | XEvent s e' => str_eqb s sub && str_eqb (ev_id e') (ev_id e)
+    | XEvent s e' => str_eqb s sub &&& str_eqb (ev_id e') (ev_id e)
     | _ => false
     end) (outs_of h x).
 
@@ -125,7 +132,7 @@ Definition may_be_full (h : history) (x : nat) (p : hop) : bool :=
       hi_buf h <=? Z.of_nat (count_occ_b (fun ms : xmsg * Z =>
         match fst ms with
         | XEvent _ e2 =>
-            (h_b p <? snd ms) &&
+            (h_b p <? snd ms) &&&
             match pub_begin h (ev_id e2) with Some b2 => b2 <? pd | None => true end
         | _ => false
         end) (outs_of h x))
@@ -137,14 +144,14 @@ Definition must_ok (h : history) : bool :=
     match h_d p with
     | None => true
     | Some pd =>
-        is_sentinel e ||
+        is_sentinel e |||
         forallb (fun q : hop =>
           match h_o q, h_d q with
           | OReq sub fs, Some qd =>
               let x := h_c q in
-              negb ((qd <? h_b p) && matches_specb e fs && negb (has_disc h x) &&
-                    negb (existsb (fun k : hop => (h_b q <? h_b k) && op_ends (h_o k) sub && (h_b k <? pd)) (ops_of h x)))
-              || delivered h x sub e || may_be_full h x p
+              negb ((qd <? h_b p) &&& matches_specb e fs &&& negb (has_disc h x) &&&
+                    negb (existsb (fun k : hop => (h_b q <? h_b k) &&& op_ends (h_o k) sub &&& (h_b k <? pd)) (ops_of h x)))
+              ||| delivered h x sub e ||| may_be_full h x p
           | _, _ => true
           end) (hi_ops h)
     end) (pubs h).
@@ -160,7 +167,7 @@ Fixpoint once_list (l : list (xmsg * Z)) : bool :=
       | XEvent sub e =>
           negb (existsb (fun ms' : xmsg * Z =>
                   match fst ms' with
-                  | XEvent sub' e' => str_eqb sub sub' && str_eqb (ev_id e) (ev_id e')
+                  | XEvent sub' e' => str_eqb sub sub' &&& str_eqb (ev_id e) (ev_id e')
                   | _ => false
                   end) l')
       | _ => true
@@ -181,9 +188,9 @@ Fixpoint order_list (h : history) (l : list (xmsg * Z)) : bool :=
           forallb (fun ms' : xmsg * Z =>
             match fst ms' with
             | XEvent sub' e' =>
-                negb (str_eqb sub sub') ||
+                negb (str_eqb sub sub') |||
                 match pub_of h (ev_id e), pub_of h (ev_id e') with
-                | Some (p1, b1), Some (p2, b2) => negb (Nat.eqb p1 p2) || (b1 <? b2)
+                | Some (p1, b1), Some (p2, b2) => negb (Nat.eqb p1 p2) ||| (b1 <? b2)
                 | _, _ => true
                 end
             | _ => true
@@ -231,7 +238,7 @@ Definition drained_ok (h : history) : bool :=
 (** a connection's operations do not overlap (the harness issues them in
     order); histories that violate this are not judged *)
 Definition timed_oracle (h : history) : bool :=
-  replies_ok h && drained_ok h && must_not_ok h && must_ok h && once_ok h && order_ok h.
+  replies_ok h &&& drained_ok h &&& must_not_ok h &&& must_ok h &&& once_ok h &&& order_ok h.
 
 (* ------------------------------------------------------------------ *)
 (** * Quiescent sequential histories: exact expectation
@@ -286,12 +293,12 @@ Fixpoint exact_walk (h : history) (before : list hop) (rest : list hop) : bool :
                          | XEvent s e' => if str_eqb (ev_id e') (ev_id e) then [s] else []
                          | _ => []
                          end) (outs_of h x) in
-            forallb (fun s => mem_str s want) got &&
-            (has_disc h x || is_sentinel e || may_be_full h x o || forallb (fun s => mem_str s got) want))
+            forallb (fun s => mem_str s want) got &&&
+            (has_disc h x ||| is_sentinel e ||| may_be_full h x o ||| forallb (fun s => mem_str s got) want))
           (seq 0 (length (hi_outs h)))
       | _ => true
-      end && exact_walk h (before ++ [o]) rest'
+      end &&& exact_walk h (before ++ [o]) rest'
   end.
 
 Definition det_oracle (h : history) : bool :=
-  timed_oracle h && (negb (sequential h) || exact_walk h [] (hi_ops h)).
+  timed_oracle h &&& (negb (sequential h) ||| exact_walk h [] (hi_ops h)).
